@@ -31,7 +31,6 @@ Lemma same_learnt_in : forall st a b, same_learnt st a b = true ->
   forall y, In y a <-> In y b.
 Proof.
   intros st a b H. unfold same_learnt in H.
-  apply andb_prop in H. destruct H as [H _].
   apply andb_prop in H. destruct H as [H H3].
   apply andb_prop in H. destruct H as [H1 H2].
   apply Z.eqb_eq in H1. apply Z.eqb_eq in H2. apply eqb_Zs_eq in H3.
